@@ -398,6 +398,12 @@ class Zeroconf(QuietLogger):
         for i in range(_REGISTER_BROADCASTS):
             if i != 0:
                 await asyncio.sleep(millis_to_seconds(interval))
+                if ttl is None and self.registry.async_get_info_name(info.key) is not info:
+                    # The service was unregistered or replaced while it was still being
+                    # announced. Announcing it again would land between (or after) the
+                    # goodbye packets and undo them for every listener that misses the
+                    # last goodbye.
+                    return
             self.async_send(self.generate_service_broadcast(info, ttl, broadcast_addresses))
 
     def generate_service_broadcast(
